@@ -59,6 +59,19 @@ def msg_kind_of_send(ctx, g, rd, node, call):
     return None, None, None
 
 
+def propagate_guarded(g, raise_node):
+    """is every path from an exception-handler entry to this bare raise taking the positive edge of a test on a
+    configuration key propagate_*_locally?"""
+    gates = {n.id for n in g.live if n.kind == "test" and isinstance(n.ast, ast.Subscript)
+             and (A.const_str(n.ast.slice) or "").startswith("propagate_") and (A.const_str(n.ast.slice) or "").endswith("_locally")}
+    if not gates:
+        return False
+    entries = [n for n in g.live if n.kind == "except"]
+    p = Q.find_path_ef(entries, lambda x: x is raise_node,
+                       lambda a, b, l: l != "exc" and not (a.id in gates and l == "true"))
+    return p is None
+
+
 def run(ctx, rep):
     rep.rule("R08.1", "exactly one completed response send on every normal path of _dispatch_request, bearing the "
                       "unmodified request seq; handler invoked at most once; MSG_REPLY only on the no-exception continuation")
@@ -183,16 +196,10 @@ def run(ctx, rep):
         if n.ast is None:
             continue
         if isinstance(n.ast, ast.Raise) and n.ast.exc is None:
-            conds = Q.dominating_conditions(g, n, dom)
-            keys = set()
-            for t, pol in conds:
-                if pol and isinstance(t.ast, ast.Subscript):
-                    k = A.const_str(t.ast.slice)
-                    if k:
-                        keys.add(k)
-            okx = any(k.startswith("propagate_") and k.endswith("_locally") for k in keys)
+            okx = propagate_guarded(g, n)
             rep.ob("R08.1", "_dispatch_request: unanswered exit `raise` is a configured local propagation", okx,
-                   "bare raise guarded by %s" % sorted(keys) if okx else
+                   "every path from the handler entry to the bare raise takes the positive edge of a propagate_*_locally test"
+                   if okx else
                    "a re-raise leaves the request unanswered without being guarded by a propagate_*_locally switch",
                    ctx.loc(n))
             continue
@@ -264,12 +271,7 @@ def run(ctx, rep):
         starts = [t for t, l in s2.succ if l == "exc"]
         bad = None
         dom2 = Q.dominators(g2)
-        exempt = []
-        for n in g2.live:
-            if isinstance(n.ast, ast.Raise) and n.ast.exc is None:
-                for t, pol in Q.dominating_conditions(g2, n, dom2):
-                    if pol and isinstance(t.ast, ast.Subscript) and (A.const_str(t.ast.slice) or "").startswith("propagate_"):
-                        exempt.append(n)
+        exempt = [n for n in g2.live if isinstance(n.ast, ast.Raise) and n.ast.exc is None and propagate_guarded(g2, n)]
         for st in starts:
             if st is g2.excexit:
                 bad = [s2, st]
@@ -285,72 +287,92 @@ def run(ctx, rep):
                "_dispatch_request unanswered: the exception leaves serve() and the connection is torn down",
                ctx.loc(site), witness=ctx.path(bad) if bad else None)
 
-    # ------------------------------------------------------------------ R08.3 routing
-    fd = ctx.func(K.CONN + "._dispatch")
-    gd = ctx.cfg(fd)
+    # ------------------------------------------------------------------ R08.3 routing (partial evaluation by message kind)
+    dm = K.dispatch_model(ctx)
+    fd, gd = dm.f, dm.g
     rep.analysed(fd, gd)
-    rdd = Q.ReachingDefs(gd)
     load_nodes = [n for n in gd.live if n.ast is not None and n.kind == "stmt" and A.find_calls(n.ast, "brine.load")]
     rep.floor("R08.3", "decode site (brine.load) in _dispatch", len(load_nodes), 1)
     ln = load_nodes[0]
-    tgt_names = []
-    if isinstance(ln.ast, ast.Assign) and isinstance(ln.ast.targets[0], ast.Tuple):
-        tgt_names = [e.id if isinstance(e, ast.Name) else None for e in ln.ast.targets[0].elts]
-    if len(tgt_names) != 3 or None in tgt_names:
+    if len(dm.names) != 3:
         raise AnalysisError("_dispatch no longer destructures brine.load(data) into three names")
-    v_msg, v_seq, v_args = tgt_names
+    v_msg, v_seq, v_args = dm.names
     routed = 0
-    domd = Q.dominators(gd)
-    for n in gd.live:
-        if n.ast is None or n.kind != "stmt":
-            continue
-        for c in A.find_calls(n.ast, "self._seq_request_callback"):
+    for kname, want_flag, want_dec in (("MSG_REPLY", False, "value"), ("MSG_EXCEPTION", True, "exc")):
+        ok_e = dm.edge_ok(kname)
+        rdd = Q.ReachingDefs(gd, edge_ok=ok_e)
+        calls = []
+        for n in dm.nodes(kname):
+            if n.ast is not None and n.kind == "stmt":
+                for c in A.find_calls(n.ast, "self._seq_request_callback"):
+                    calls.append((n, c))
+        cnt = Q.count_on_paths(gd, gd.entry, lambda x: any(x is n for n, _ in calls), edge_ok=ok_e)
+        at = cnt.get(gd.exit.id, frozenset())
+        rep.ob("R08.3", "_dispatch: a %s is handed to the callback lookup exactly once" % kname, at == frozenset([1]),
+               "one _seq_request_callback call on every path taken for this kind" if at == frozenset([1]) else
+               "a %s is routed %s times" % (kname, sorted(at)), fd.loc)
+        for n, c in calls:
             routed += 1
-            okq = len(c.args) >= 4 and isinstance(c.args[1], ast.Name) and c.args[1].id == v_seq \
-                and rdd.at(n, v_seq) == {ln}
-            rep.ob("R08.3", "_dispatch: `%s` routes by the received seq" % A.norm(c)[:70], okq,
+            okq = len(c.args) >= 4 and isinstance(c.args[1], ast.Name) and c.args[1].id == v_seq and rdd.at(n, v_seq) == {ln}
+            rep.ob("R08.3", "_dispatch: %s routed by the received seq" % kname, okq,
                    "the sequence number handed to the callback lookup is the one decoded from the packet" if okq else
                    "the response is routed with something other than its own decoded sequence number", ctx.loc(c))
-            # kind / flag / decoder agreement
-            conds = [(t, pol) for t, pol in Q.dominating_conditions(gd, n, domd) if pol]
-            kind = None
-            for t, pol in conds:
-                if isinstance(t.ast, ast.Compare) and isinstance(t.ast.left, ast.Name) and t.ast.left.id == v_msg \
-                        and isinstance(t.ast.ops[0], ast.Eq):
-                    kind = ctx.try_fold(t.ast.comparators[0])
-            flag = ctx.try_fold(c.args[2]) if len(c.args) >= 3 else None
-            obj_ok = False
-            dec = None
-            if len(c.args) >= 4 and isinstance(c.args[3], ast.Name):
-                for d in rdd.at(n, c.args[3].id):
-                    if d != "param":
-                        if A.find_calls(d.ast, "self._unbox_exc"):
-                            dec = "exc"
-                        elif A.find_calls(d.ast, "self._unbox"):
-                            dec = "value"
-            if kind == MSG_REPLY:
-                obj_ok = flag is False and dec == "value"
-            elif kind == MSG_EXC:
-                obj_ok = flag is True and dec == "exc"
-            rep.ob("R08.3", "_dispatch: kind %r delivered with the matching flag and decoder" % (kind,), obj_ok,
+            # flag: constant, or a local whose definitions under this kind are that constant
+
+            def const_under(e):
+                v = ctx.try_fold(e)
+                if isinstance(e, ast.Constant):
+                    return {e.value}
+                if isinstance(e, ast.Name):
+                    out = set()
+                    for d in rdd.at(n, e.id):
+                        if d == "param" or not isinstance(d.ast, ast.Assign):
+                            return {"?"}
+                        val = d.ast.value
+                        tgt = d.ast.targets[0]
+                        if isinstance(tgt, ast.Tuple) and isinstance(val, ast.Tuple) and len(tgt.elts) == len(val.elts):
+                            for te, ve in zip(tgt.elts, val.elts):
+                                if isinstance(te, ast.Name) and te.id == e.id:
+                                    val = ve
+                        out.add(val.value if isinstance(val, ast.Constant) else "?")
+                    return out
+                return {"?"}
+
+            def decoder_under(e):
+                if isinstance(e, ast.Call):
+                    return {"exc" if A.find_calls(e, "self._unbox_exc") else ("value" if A.find_calls(e, "self._unbox") else "?")}
+                if isinstance(e, ast.Name):
+                    out = set()
+                    for d in rdd.at(n, e.id):
+                        if d == "param":
+                            return {"?"}
+                        out.add("exc" if A.find_calls(d.ast, "self._unbox_exc") else
+                                ("value" if A.find_calls(d.ast, "self._unbox") else "?"))
+                    return out
+                return {"?"}
+            flag = const_under(c.args[2]) if len(c.args) >= 3 else {"?"}
+            dec = decoder_under(c.args[3]) if len(c.args) >= 4 else {"?"}
+            obj_ok = flag == {want_flag} and dec == {want_dec}
+            rep.ob("R08.3", "_dispatch: %s delivered with the matching flag and decoder" % kname, obj_ok,
                    "MSG_REPLY -> (is_exc=False, _unbox); MSG_EXCEPTION -> (is_exc=True, _unbox_exc)" if obj_ok else
-                   "message kind %r is delivered with is_exc=%r decoded by %s" % (kind, flag, dec), ctx.loc(c),
-                   kind="table")
+                   "message kind %s is delivered with is_exc=%s decoded by %s" % (kname, sorted(map(str, flag)), sorted(dec)),
+                   ctx.loc(c), kind="table")
     rep.floor("R08.3", "response routing calls in _dispatch", routed, 2)
-    # request branch: passes seq and args on unchanged
-    for n in gd.live:
-        if n.ast is None or n.kind != "stmt":
-            continue
-        for c in A.find_calls(n.ast, "self._dispatch_request"):
-            okr = len(c.args) == 2 and all(isinstance(a, ast.Name) for a in c.args) \
-                and c.args[0].id == v_seq and c.args[1].id == v_args and rdd.at(n, v_seq) == {ln}
-            rep.ob("R08.3", "_dispatch: request handed to _dispatch_request with its own seq", okr,
-                   "(_seq, args) forwarded unchanged" if okr else "request forwarded with altered seq/args", ctx.loc(c))
-    # unknown kinds raise
-    last_else = [n for n in gd.live if n.kind == "stmt" and isinstance(n.ast, ast.Raise)]
-    rep.ob("R08.3", "_dispatch: unknown message kinds raise", bool(last_else),
-           "a raise statement terminates the kind dispatch" if last_else else
-           "unknown message kinds are silently accepted", fd.loc, kind="site")
+    okreq = False
+    rdq = Q.ReachingDefs(gd, edge_ok=dm.edge_ok("MSG_REQUEST"))
+    for n in dm.nodes("MSG_REQUEST"):
+        if n.ast is not None and n.kind == "stmt":
+            for c in A.find_calls(n.ast, "self._dispatch_request"):
+                okreq = len(c.args) == 2 and all(isinstance(a, ast.Name) for a in c.args) \
+                    and c.args[0].id == v_seq and c.args[1].id == v_args and rdq.at(n, v_seq) == {ln}
+    rep.ob("R08.3", "_dispatch: request handed to _dispatch_request with its own seq", okreq,
+           "(seq, args) forwarded unchanged" if okreq else "a request is not forwarded with its own (seq, args)", fd.loc)
+    no_resp_on_req = not any(A.find_calls(n.ast, "self._seq_request_callback") for n in dm.nodes("MSG_REQUEST")
+                             if n.ast is not None and n.kind == "stmt")
+    okother = not dm.returns("<other>") and bool(dm.raises("<other>")) and gd.exit not in dm.nodes("<other>")
+    rep.ob("R08.3", "_dispatch: unknown message kinds raise", okother and no_resp_on_req,
+           "for a kind outside the three published ones only a raise is reachable" if okother else
+           "unknown message kinds are silently accepted", fd.loc)
 
     fc = ctx.func(K.CONN + "._seq_request_callback")
     gc = ctx.cfg(fc)
